@@ -329,11 +329,12 @@ Qed.
 Theorem rl_step_inv s o : rl_inv s -> rl_inv (fst (step s o)).
 Proof.
   intros I. unfold step. destruct (op_ok o) eqn:Ok; cbn [negb]; [|exact I].
-  destruct o as [p r|p|sy p r|p]; cbn [op_ok] in Ok.
+  destruct o as [p r|p|sy p r|p|]; cbn [op_ok] in Ok.
   - apply andb_prop in Ok. apply rl_add_dir_inv; tauto.
   - apply rl_rm_dir_inv; assumption.
   - apply andb_prop in Ok. apply rl_add_leaf_inv; tauto.
   - apply rl_rm_leaf_inv; assumption.
+  - exact I.
 Qed.
 
 Theorem rl_run_inv ops : forall s, rl_inv s -> rl_inv (run s ops).
